@@ -5,6 +5,8 @@ import (
 	"fmt"
 	"strconv"
 	"strings"
+	"sync"
+	"sync/atomic"
 	"time"
 
 	apierrors "k8s.io/apimachinery/pkg/api/errors"
@@ -25,7 +27,7 @@ func init() {
 	Registry["C15"] = &Prop{
 		Plan: func(tier string) Plan {
 			return Plan{Level: "exploration", NCases: pick(tier, 48, 1200), Batch: 4, CaseTimeout: 120,
-				Rule: "one case = an old leader elected through the real resourcelock.Interface (Get->Create, then the on-elected action of pkg/server/service/leader: parse the engine timestamp from Describe() and SetCurrentRevision), a PRNG history with bursts of failed writes (which consume revisions without touching the engine) and occasional lock renewals, the old leader stopping after a PRNG request, then a new backend over the same store (fail-over on memkv/TiKV mock/Badger; close+reopen of the Badger directory for restart) elected the same way (Get->Update). " +
+				Rule: "one case = an old leader elected through the real resourcelock.Interface (Get->Create, then the on-elected action of pkg/server/service/leader: parse the engine timestamp from Describe() and SetCurrentRevision), a PRNG history with bursts of failed writes (which consume revisions without touching the engine) and occasional lock renewals, the old leader stopping after a PRNG request, then a new backend over the same store (fail-over on memkv/TiKV mock/Badger — in half of the fail-over cases the new leader has been serving concurrent follower reads, i.e. adopting the old leader's revision from 8 goroutines, all along; close+reopen of the Badger directory for restart) elected the same way (Get->Update). " +
 					"oracle: the new leader's start revision and the first revisions it hands out exceed every revision in the engine dump (version keys and index values); guarded update/delete of pre-existing keys at their current revision succeed; List(rev=0) on the new leader equals the reference state. " +
 					"non-trivial = history with >=3 failed writes and >=2 keys alive at the hand-over; distinct by (engine, outcome vector)",
 				Assumptions: []string{"the election is driven in-process in client-go's call order and the on-elected action of leader.go is applied by the harness (the real Campaign loop cannot be stopped without killing the process)",
@@ -74,6 +76,7 @@ func renew(n *harness.Node, id string) {
 }
 
 func runC15(c *harness.Case) {
+	var followerReads int64
 	r := c.Rng
 	kind := c15Engines[c.Index%len(c15Engines)]
 	base := strings.TrimSuffix(kind, "-restart")
@@ -89,6 +92,37 @@ func runC15(c *harness.Case) {
 		c.Inconclusive("old leader could not be elected: " + err.Error())
 		return
 	}
+	// in fail-over cases the future leader already runs as a follower: concurrent readers keep adopting the old
+	// leader's revision on it (what SyncReadRevision does) while the old leader writes
+	var follower *harness.Node
+	var fstop int32
+	var fwg sync.WaitGroup
+	if !strings.HasSuffix(kind, "-restart") && c.Index%2 == 0 {
+		follower = harness.NewNode(harness.NodeOpts{KV: eng.KV, SkipInit: true, Config: backend.Config{Identity: "node-b:2380"}})
+		for g := 0; g < 8; g++ {
+			fwg.Add(1)
+			go func(g int) {
+				defer fwg.Done()
+				full := harness.Prefix + "/"
+				for i := 0; atomic.LoadInt32(&fstop) == 0; i++ {
+					// what SyncReadRevision does before every follower read
+					follower.B.SetCurrentRevision(a.Committed())
+					switch (i + g) % 16 {
+					case 0:
+						_, _ = follower.List(full, string(backend.PrefixEnd([]byte(full))), 0, 0)
+					case 8:
+						_, _ = follower.Get(full+"a", 0)
+					}
+					atomic.AddInt64(&followerReads, 1)
+				}
+			}(g)
+		}
+	}
+	stopFollower := func() {
+		atomic.StoreInt32(&fstop, 1)
+		fwg.Wait()
+	}
+	defer stopFollower()
 	s := &seqCtx{c: c, n: a, m: harness.NewModel()}
 	for _, nm := range []string{"/a", "/b", "/c/d", "/e", "/f"}[:2+r.Intn(4)] {
 		s.keys = append(s.keys, harness.Prefix+nm)
@@ -134,7 +168,29 @@ func runC15(c *harness.Case) {
 		c.R.Inconclusive = "old leader's history disagreed with the reference (not this property's subject)"
 		return
 	}
+	if follower != nil {
+		// keep the old leader's revision moving quickly for a while (failing creates are cheap and consume revisions)
+		if len(s.keys) > 0 && s.m.Live(s.keys[0]) == nil {
+			s.write(harness.SeqOp{Kind: "create", Key: s.keys[0], Val: []byte("busy")}, "C15")
+		}
+		for i := 0; i < 20000; i++ {
+			out := a.Do(harness.SeqOp{Kind: "create", Key: s.keys[0], Val: []byte("dup")})
+			if out.Err == "" && !out.Succeeded {
+				s.nFail++
+			}
+		}
+		a.WaitCommitted(a.Dealt(), 30*time.Second)
+	}
 	dealtA := a.Dealt()
+	stopFollower()
+	if follower != nil {
+		// a node that never deals keeps dealt == committed; dealt below committed means the next revisions it hands out
+		// after taking over would repeat revisions the old leader has already written
+		if cm, dl := follower.Committed(), follower.Dealt(); dl < cm {
+			c.Violatef("C15 follower-revision-allocator-fell-behind-its-read-revision engine="+base, s.witness(), "after %d concurrent follower reads the node's next revision would be %d while it already reads at %d (old leader dealt up to %d)", atomic.LoadInt64(&followerReads), dl+1, cm, dealtA)
+			return
+		}
+	}
 	a.Retire() // the old leader is never heard from again
 	// highest revision present in the store
 	kvForB := eng.KV
@@ -172,7 +228,14 @@ func runC15(c *harness.Case) {
 	if r.Intn(3) == 0 {
 		idB = "node-a:2380" // the same node restarted
 	}
-	b := harness.NewNode(harness.NodeOpts{KV: kvForB, SkipInit: true, Config: backend.Config{Identity: idB}})
+	b := follower
+	if b == nil {
+		b = harness.NewNode(harness.NodeOpts{KV: kvForB, SkipInit: true, Config: backend.Config{Identity: idB}})
+	} else {
+		idB = "node-b:2380"
+		c.Stat("handovers_to_a_node_that_served_follower_reads", 1)
+		c.Stat("follower_reads_before_handover", atomic.LoadInt64(&followerReads))
+	}
 	defer b.Retire()
 	vb, err := elect(b, idB)
 	if err != nil {
